@@ -1,3 +1,3 @@
 import CobaVerif.Driver.Loop
--- stub: replaced when the C02 model exists
-def main : IO Unit := Coba.J.runLoop (fun _ => .error "C02 driver not implemented")
+import CobaVerif.Driver.C02
+def main : IO Unit := Coba.J.runLoop Coba.C02.Driver.handle
